@@ -30,6 +30,11 @@ class Gen(object):
     def text(self):
         return self.rng.choice(TEXTS)
 
+    def attr_text(self):
+        """value of an attribute: now and then the empty string (a declared attribute that is '' is still an
+        attribute: it must be written and read back as '')"""
+        return "" if self.rng.random() < 0.08 else self.rng.choice(TEXTS)
+
     # ---- foreign content
     def foreign_elem(self, depth=1, known_tag=None):
         from saml2_tophat import ExtensionElement
@@ -41,7 +46,7 @@ class Gen(object):
                                 (FOREIGN_NS + ":b", "Other")])
         e = ExtensionElement(tag, ns)
         if r.random() < 0.6:
-            e.attributes["fa%d" % r.randint(0, 2)] = self.text()
+            e.attributes["fa%d" % r.randint(0, 2)] = self.attr_text()
         if r.random() < 0.3:
             e.attributes["{%s}q" % FOREIGN_NS] = self.text()
         if r.random() < 0.6:
@@ -53,7 +58,7 @@ class Gen(object):
 
     def foreign_attr(self):
         r = self.rng
-        return r.choice(["{%s}fattr%d" % (FOREIGN_NS, r.randint(0, 2)), "plain%d" % r.randint(0, 2)]), self.text()
+        return r.choice(["{%s}fattr%d" % (FOREIGN_NS, r.randint(0, 2)), "plain%d" % r.randint(0, 2)]), self.attr_text()
 
     # ---- objects
     def av_obj(self, cid, kind=None):
@@ -95,7 +100,7 @@ class Gen(object):
         o = cls()
         for (_x, m, _t, _req) in row["attrs"]:
             if full or r.random() < 0.5:
-                setattr(o, self.name(m), self.text())
+                setattr(o, self.name(m), self.attr_text())
         if r.random() < (0.7 if full else 0.4):
             o.text = self.text() if r.random() < 0.95 else ""
         for (_k, m, ccid, islist) in row["children"]:
